@@ -60,11 +60,16 @@ def load_sets():
     est = quiet_call(algorithms.eqs)
     for nm in ("mrp", "sim"):
         def gen(dest, nm=nm, **opts):
-            quiet_call(algorithms.generate_code, {nm: est[nm]}, dest, **opts)
+            # exactly as shipped: one call with the whole dictionary of equation sets writes one file per set
+            marker = os.path.join(dest, ".estimator_generated")
+            if not os.path.exists(marker):
+                quiet_call(algorithms.generate_code, est, dest, **opts)
+                open(marker, "w").close()
             return [os.path.join(dest, "casadi_%s.c" % nm)]
 
         sets["estimator_" + nm] = {"functions": list(est[nm].values()), "generate": gen, "keys": BOOL_KEYS_EST,
-                                   "defaults": {"main": False, "mex": False, "with_header": True, "with_mem": True}}
+                                   "defaults": {"main": False, "mex": False, "with_header": True, "with_mem": True},
+                                   "shared_dest": "estimator"}
 
     def main_set(modname, cfile):
         tmp = tempfile.mkdtemp(prefix="c09main_", dir=S["tmp"])
@@ -128,7 +133,7 @@ def exported_names(csrc):
 
 
 def do_generate(setname, info, v, idx):
-    dest = os.path.join(S["tmp"], "%s_%d" % (setname, idx))
+    dest = os.path.join(S["tmp"], "%s_%s" % (info.get("shared_dest", setname), idx))
     os.makedirs(dest, exist_ok=True)
     try:
         files = info["generate"](dest, **v)
@@ -179,6 +184,26 @@ def _setup(tier):
     res = [do_generate(*j) for j in jobs]
     for (sname, info, v, i), r in zip(jobs, res):
         S["gen"][(sname, optname(v, info["defaults"]))] = (v, r)
+    # history independence: the generated text must be a function of (equation set, options) only
+    S["regen"] = {}
+    for sname, info in S["sets"].items():
+        names_ = [o for (a, o) in S["gen"] if a == sname]
+        picks = ["defaults"] + [o for o in names_ if o != "defaults"][-2:]
+        for o in picks:
+            v, r = S["gen"][(sname, o)]
+            if not r["ok"]:
+                continue
+            r2 = do_generate(sname, info, v, "again_" + re.sub(r"[^a-z0-9_=]", "_", o))
+            same = None
+            if r2["ok"]:
+                f1, f2 = r["files"][0], r2["files"][0]
+                a1 = f1 if os.path.exists(f1) else f1[:-2] + ".cpp"
+                a2 = f2 if os.path.exists(f2) else f2[:-2] + ".cpp"
+                same = open(a1).read() == open(a2).read()
+                h1, h2 = f1[:-2] + ".h", f2[:-2] + ".h"
+                if os.path.exists(h1) != os.path.exists(h2):
+                    same = False
+            S["regen"][(sname, o)] = (r2, same)
     # compile the default vector of every set (and the files written by the __main__ blocks)
     cjobs = []
     for sname, info in S["sets"].items():
@@ -286,6 +311,19 @@ def make_cells(tier):
                     raise Violation("file written by the __main__ block of %s exports %s, equation set has %s" % (sname, got, want))
 
             cells.append(Cell("main_block/%s" % sname, st.just({"set": sname}), check_main, lambda c: True, None, quick=1, thorough=1, shrink=False))
+
+    # ---- generated output does not depend on earlier generate_code calls
+    for (sname, oname), (r2, same) in sorted(S["regen"].items()):
+        def check_regen(case, sname=sname, oname=oname, r2=r2, same=same):
+            if not r2["ok"]:
+                raise Violation("generate_code for set %s with options {%s} succeeded at first but failed when repeated after other "
+                                "calls: %s" % (sname, oname, r2["error"]))
+            if not same:
+                raise Violation("generate_code for set %s with options {%s} wrote different C text when repeated after calls with "
+                                "other options (output depends on the call history, not only on its arguments)" % (sname, oname))
+
+        cells.append(Cell("history/%s/%s" % (sname, oname), st.just({"set": sname, "options": oname}), check_regen,
+                          lambda c: True, None, quick=1, thorough=1, shrink=False))
 
     # ---- compile cleanly (default vector)
     for sname, info in S["sets"].items():
